@@ -3,7 +3,7 @@
 From Coq Require Import List Arith Bool Ascii String.
 Local Open Scope string_scope.
 Local Open Scope list_scope.
-From Cb Require Import C17.Model C17.Spec C17.Expand.
+From Cb Require Import C17.Model C17.Spec C17.Expand C17.Complete.
 Import ListNotations.
 
 (* Conditional inclusion, any nesting depth, any initial table / line number / file name: running the
@@ -30,6 +30,18 @@ Print Assumptions stray_directive_is_error.
 Theorem unclosed_conditional_is_error : forall p, stack p <> [] -> nerr (finish p) = S (nerr (cor p)).
 Proof. exact unclosed_is_error. Qed.
 Print Assumptions unclosed_conditional_is_error.
+
+(* completeness of the error report: a file that is not the flattening of a well-nested tree of
+   conditional groups always ends with at least one more error, whatever else it contains *)
+Theorem ill_nested_file_is_error : forall ls p, wn ls (flags p) = false ->
+  nerr (cor p) < nerr (finish (run ls p)).
+Proof. exact ill_nested_is_error. Qed.
+Print Assumptions ill_nested_file_is_error.
+
+Theorem no_error_only_if_well_nested : forall ls c0,
+  nerr (finish (run ls (mkp [] c0))) = nerr c0 -> exists its, ls = fl_items its.
+Proof. exact no_error_implies_tree. Qed.
+Print Assumptions no_error_only_if_well_nested.
 
 Theorem errors_never_retracted : forall ls p, nerr (cor p) <= nerr (cor (run ls p)).
 Proof. exact nerr_run. Qed.
